@@ -286,60 +286,66 @@ impl Request {
     }
 
     pub fn cursor_read(cursor: &mut Cursor<&[u8]>, mut iteration_number: usize, request: &mut Request, mut content_length: usize) -> Result<bool, String> {
-        let mut buf = vec![];
-        let bytes_offset = cursor.read_until(b'\n', &mut buf).unwrap();
-        let b : &[u8] = &buf;
-        let boxed_request = String::from_utf8(Vec::from(b));
-        if boxed_request.is_err() {
-            let error_message = boxed_request.err().unwrap().to_string();
-            return Err(error_message);
-        }
-        let string = boxed_request.unwrap();
-
-        let is_first_iteration = iteration_number == 0;
-        let new_line_char_found = bytes_offset != 0;
-        let current_string_is_empty = string.trim().len() == 0;
-
-        if is_first_iteration {
-            match Request::parse_method_and_request_uri_and_http_version_string(&string) {
-                Ok((method, request_uri, http_version)) => {
-                    request.method = method;
-                    request.request_uri = request_uri;
-                    request.http_version = http_version;
+        // one line per turn of the loop (not one stack frame per line): the head ends at the first empty line or at the end of input
+        let first_line_number = iteration_number;
+        loop {
+            let mut buf = vec![];
+            let bytes_offset = cursor.read_until(b'\n', &mut buf).unwrap();
+            let b : &[u8] = &buf;
+            let boxed_request = String::from_utf8(Vec::from(b));
+            if boxed_request.is_err() {
+                let error_message = boxed_request.err().unwrap().to_string();
+                if iteration_number != 0 {
+                    eprintln!("unable to read request: {}", error_message);
                 }
-                Err(error_message) => {
-                    return Err(error_message)
-                }
+                return Err(error_message);
             }
-        }
+            let string = boxed_request.unwrap();
 
-        if current_string_is_empty {
-            return Ok(true);
-        }
+            let is_first_iteration = iteration_number == 0;
+            let new_line_char_found = bytes_offset != 0;
+            let current_string_is_empty = string.trim().len() == 0;
 
-        if new_line_char_found && !current_string_is_empty {
-            let mut header = Header { name: "".to_string(), value: "".to_string() };
-            if !is_first_iteration {
-                header = Request::parse_http_request_header_string(&string);
-                if header.name == Header::_CONTENT_LENGTH {
-                    let boxed_content_length = header.value.parse();
-                    if boxed_content_length.is_err() {
-                        let message = format!("unable to parse Content-Length header value: {}", header.value);
-                        return Err(message);
+            if is_first_iteration {
+                match Request::parse_method_and_request_uri_and_http_version_string(&string) {
+                    Ok((method, request_uri, http_version)) => {
+                        request.method = method;
+                        request.request_uri = request_uri;
+                        request.http_version = http_version;
                     }
-                    content_length = boxed_content_length.unwrap();
+                    Err(error_message) => {
+                        return Err(error_message)
+                    }
                 }
             }
 
-            request.headers.push(header);
-            iteration_number += 1;
-            let boxed_read = Request::cursor_read(cursor, iteration_number, request, content_length);
-            if boxed_read.is_err() {
-                let reason = boxed_read.err().unwrap().to_string();
-                eprintln!("unable to read request: {}", reason);
-                return Err(reason);
+            if current_string_is_empty {
+                if iteration_number == first_line_number {
+                    return Ok(true);
+                }
+                break;
+            }
+
+            if new_line_char_found && !current_string_is_empty {
+                let mut header = Header { name: "".to_string(), value: "".to_string() };
+                if !is_first_iteration {
+                    header = Request::parse_http_request_header_string(&string);
+                    if header.name == Header::_CONTENT_LENGTH {
+                        let boxed_content_length = header.value.parse();
+                        if boxed_content_length.is_err() {
+                            let message = format!("unable to parse Content-Length header value: {}", header.value);
+                            eprintln!("unable to read request: {}", message);
+                            return Err(message);
+                        }
+                        content_length = boxed_content_length.unwrap();
+                    }
+                }
+
+                request.headers.push(header);
+                iteration_number += 1;
             }
         }
+        let _ = content_length;
 
         // remaining part is request body
 
